@@ -1,8 +1,11 @@
 """C09 - a topology operation that fails leaves the model unchanged."""
 from vf.registry import add
 from harness.topo_steps import mk, ALL_OPS, ENC
-for _k, _tiers in (('S3', ("quick", "thorough")), ('S1', ("thorough",)), ('S0', ("thorough",))):
+for _k, _tiers in (('S4', ("quick", "thorough")), ('S3', ("thorough",)), ('S1', ("thorough",)), ('S0', ("thorough",))):
     for _op in ALL_OPS:
-        add("c09/%s/%s" % (_k, _op), mk('C09', _k, _op), timeout=900, tiers=_tiers, encodes=ENC,
+        if _k == 'S4' and _op == 'add_network_service':
+            add("c09/S4/add_network_service_two_interfaces", mk('C09', _k, _op), timeout=1500, tiers=("thorough",), encodes=ENC,
+                bounds="skeleton S4, new service with 0..2 interfaces from 5 representative ones at symbolic positions")
+        add("c09/%s/%s" % (_k, _op), mk('C09', _k, _op, small=(_k == 'S4')), timeout=900, tiers=_tiers, encodes=ENC,
             bounds="skeleton %s, one %s with symbolic arguments (names/sites/types/interfaces by symbolic index incl. unused and duplicate ones, "
                    "unbounded int capacities, unbounded symbolic model string); if the call raises the canonical snapshot equals the pre-snapshot" % (_k, _op))
